@@ -75,7 +75,7 @@ class Validator(object):
         :raises: :exc:`ValidationWarning <hl7apy.exceptions.ValidationWarning>`: errors concerning the values
         """
 
-        from hl7apy.core import is_base_datatype
+        from hl7apy.core import is_base_datatype, _valid_child_name
 
         def _check_z_element(el, errs, warns):
             if el.classname == 'Field':
@@ -153,9 +153,13 @@ class Validator(object):
                 valid_children, valid_children_refs = _get_valid_children_info(ref)
 
                 # check that the children are all allowed children
-                if not element_children <= valid_children:
+                invalid_children = element_children - valid_children
+                if el.classname == 'Segment' and el.allow_infinite_children:
+                    # segments ending with a varies field accept <SEGMENT>_<n> fields beyond the last one
+                    invalid_children = {c for c in invalid_children if not _valid_child_name(c, el.name)}
+                if invalid_children:
                     errs.append(ValidationError("Invalid children detected for {}: {}".
-                                                format(el, list(element_children - valid_children))))
+                                                format(el, list(invalid_children))))
 
                 # iterates the valid children
                 for child_ref in valid_children_refs:
